@@ -443,7 +443,8 @@ class _Shifted:
 def _site_setup(kind, with_routines=False):
     from pdb2pqr import debump, hydrogens
 
-    lines = [ln for ln in fixtures.peptide_lines(["ALA", "SER" if kind == "alcohol" else "ALA", "ALA"]) if not ln.startswith("END")]
+    middle = {"alcohol": "SER", "flip-ASN": "ASN", "flip-HIS": "HIS", "carboxylic": "ASP"}.get(kind, "ALA")
+    lines = [ln for ln in fixtures.peptide_lines(["ALA", middle, "ALA"]) if not ln.startswith("END")]
     lines.append(fixtures.atom_line(900, "O", "HOH", "W", 50, 3.0, 8.0, 2.0, record="HETATM"))
     bm, _ = fixtures.prepared(lines)
     if bm.num_missing_heavy:
@@ -454,7 +455,7 @@ def _site_setup(kind, with_routines=False):
     routines.set_optimizeable_hydrogens()
     bm.hold_residues(None)
     routines.initialize_full_optimization()
-    want = "Alcoholic" if kind == "alcohol" else "Water"
+    want = {"alcohol": "Alcoholic", "flip-ASN": "Flip", "flip-HIS": "Flip", "carboxylic": "Carboxylic"}.get(kind, "Water")
     obj = [o for o in routines.optlist if type(o).__name__ == want][0]
     if with_routines:
         return bm, deb, obj, routines
@@ -799,8 +800,10 @@ def h_partner_search(eng, kind):
 
     bm, deb, obj, routines = _site_setup(kind, with_routines=True)
     cellsize = deb.cells.cellsize  # whatever the real initialisation configured
-    centre = obj.atomlist[0]
-    other = [a for a in bm.atoms if a.residue is not obj.residue and a.name == "O" and (a.hacceptor or a.hdonor)][0]
+    # the partner sits next to ANY one atom of the optimisable group (selector): every atom of the group is a query point
+    centre = obj.atomlist[eng.choice("group_atom_next_to_the_partner", len(obj.atomlist))]
+    cands = [a for a in bm.atoms if a.residue is not obj.residue and a.name == "O" and (a.hacceptor or a.hdonor)]
+    other = ([a for a in cands if a.hacceptor and a.hdonor] or cands)[0]  # a water oxygen (donor and acceptor) where there is one
     d = eng.real("distance")
     eng.assume(d > 0)
     counts = []
@@ -839,6 +842,8 @@ def h_partner_search(eng, kind):
                 pass
         counts.append(len(obj.hbonds))
     eng.derived["cell_size"] = cellsize
+    if (centre.hdonor and other.hacceptor) or (centre.hacceptor and other.hdonor):
+        eng.check(Implies(d < 2.5, counts[0] >= 1), "partner-next-to-any-group-atom-is-found", note=f"a donor/acceptor {d} A from {centre.name} (atom {obj.atomlist.index(centre) + 1} of {len(obj.atomlist)} of the group) and returned by the cell list for that atom is not among the potential partners ({counts[0]} found)")
     eng.check(counts[0] == counts[1], "partner-search-independent-of-atoms-beyond-the-cell-size", note=f"cell size {cellsize}: at distance {d} the partner is found only if the cell list happens to return it ({counts[0]} vs {counts[1]} potential bonds): the caller's distance cutoff exceeds the cell size")
 
 
@@ -1058,7 +1063,7 @@ def obligations(tier):
         obs.append(Obligation(f"hydrogen-site-{kind}-{'+'.join(pre) or 'bare'}-undone-try-both", h_hydrogen_site, dict(kind=kind, pre=list(pre), then_complete=True, undo=True), group="hydrogen-site", time_cap=1200))
     for resname in ("ASH",) if tier == "quick" else ("ASH", "GLH"):
         obs.append(Obligation(f"carboxylic-site-{resname}", h_carboxylic_site, dict(resname=resname, prop="C14"), group="hydrogen-site", time_cap=1500, max_paths=100000))
-    for kind in ("water", "alcohol"):
+    for kind in ("water", "alcohol", "flip-ASN", "flip-HIS"):  # groups of one and of four atoms
         obs.append(Obligation(f"partner-search-{kind}", h_partner_search, dict(kind=kind), group="partner-search", time_cap=600))
     if tier == "thorough":
         obs.append(Obligation("debump-site-CYS-chi1-size2", h_debump_site, {"resname": "CYS", "anglenum": 0, "size": 2}, group="debump-site", time_cap=3000, max_paths=200000))
